@@ -8,7 +8,7 @@ RULE = ('the complete table of (operation, state in which it can complete withou
         'comparison / resource comparison / and / or / inverted flag, time>=past/now, time<future, time==now, a done task, its done '
         'condition, an ended scope; flag.set (changing / not changing / unset); tracked set / +; queue put (with / without waiting '
         'receiver), buffered get, close (open / closed), iteration steps over buffered items; channel put (with / without consumer), '
-        'close; borrow / claim / nested borrow with resources available and their release; increase / decrease / set; transfers of '
+        'close; borrow / claim / nested borrow with resources available and their release (normal, and while an exception / until-interrupt / cancellation leaves the block); increase / decrease / set; transfers of '
         'zero volume, on an infinite pipe, on an UnboundedPipe; interval(0) / delay(0); collect of nothing / of instant activities; '
         'first(count=0) / of an instant activity; leaving an empty scope, a scope whose children are done, an until block - each next '
         'to 1 and 2 competing runnable activities, with the actor spawned first and last. Oracle: the operation must span at least '
@@ -73,6 +73,15 @@ def rows():
         row('claim-' + sup, [['CLAIM', 'r', {'a': 1}, []]], [((0,), 'acquire'), ((0,), 'release')], {'r': spec})
         row('nested-borrow-' + sup, [['BORROW', 'r', {'a': 2}, [['BORROW', '@', {'a': 1}, []]]]],
             [((0, 0), 'acquire'), ((0, 0), 'release')], {'r': spec})
+        # giving back while an exception, an until-interrupt or a cancellation is leaving the block (only a forceful close
+        # - GeneratorExit - cannot yield)
+        for how in ('BORROW', 'CLAIM'):
+            row('%s-raise-%s' % (how.lower(), sup), [['TRY', [[how, 'r', {'a': 1}, [['RAISE', 'KeyError', 'x']]]]]],
+                [((0, 0), 'release')], {'r': spec})
+            row('%s-until-%s' % (how.lower(), sup), [['UNTIL', 'a', ['F', 'A'], [[how, 'r', {'a': 1}, [['ETERNITY']]]]]],
+                [((0, 0), 'release')], {'r': spec, 'A': 'Flag'}, [['s', [['D', 1], ['SET', 'A', True]]]])
+            row('%s-cancel-%s' % (how.lower(), sup), [[how, 'r', {'a': 1}, [['ETERNITY']]]],
+                [((0,), 'release')], {'r': spec}, [['k', [['D', 1], ['CANCEL', 'actor', 'x']]]])
     ops('resources-change', [], [['INC', 'r', {'a': 1}], ['DEC', 'r', {'a': 1}], ['RSET', 'r', {'a': 2}], ['INC', 'r', {'a': 0}]], R2)
     ops('pipe-zero', [], [['XFER', 'p', 0], ['XFER', 'p', 0, 1]], {'p': ['Pipe', 2]})
     ops('pipe-infinite', [], [['XFER', 'p', 2], ['XFER', 'p', 0]], {'p': ['Pipe', 'inf']})
